@@ -229,8 +229,8 @@ theorem absorb_acc_needs_wf :
 The chain is closed in `SaModel/Props/C06Closure.lean` (namespace `SaModel.Props.C06`): `acc_interp` / `fromSamples_interp` /
 `fromSamples_interpRow` (tracer ⇒ documented mapping), `to_schema_typed` (traced schemas are well typed and `total`), `C06_closure_build` (trace ⇒ `to_marrow` succeeds),
 `C06_closure_decode` (the arrays decode to the samples), `C06_closure_physical`, `C06_closure_readback`, the composition `C06_closure`
-(every option, dictionary encoding included; no `Safe`, no array-side hypothesis).  They supersede the former
-`C06_closure_partial` (the closure against an abstract builder interface). -/
+(every option, dictionary encoding included; no `Safe`, no array-side hypothesis).  No theorem of this file states the
+closure against an abstract builder interface. -/
 
 /-! ### finding #25: tuples of different arity -/
 
